@@ -1,2 +1,102 @@
--- stub: replaced by the sst engine driver
-def main : IO Unit := pure ()
+/-
+Line-protocol driver for the SST engine (C35).  Reply format: `<model>\t<spec>`.
+The spec column is computed from the entry list the table was built from (sorted list
+semantics), never from the block structure.
+
+ops:  build <blockSize> <bloom 0|1> <bitsPerKey> <u:ver:val,...>   (entries in build order)
+      blocks                      base key of every block
+      get <u> <ver>               table.Search
+      seek asc|desc <u> <ver> <n> Seek + up to n Next
+      scan asc|desc               Rewind + Next…
+      reopen                      close the file handle, drop caches, open the file again
+-/
+import Driver.Lib
+import NoKVModel.Sst.Model
+
+open NoKV NoKV.Index NoKV.Sst Driver
+
+structure St where
+  c : SstCfg := SstCfg.good
+  t : Table := { blocks := [], bloomOn := false, nBits := 64, k := 1, filter := [] }
+  ents : List SEntry := []
+  built : Bool := false
+
+def setCfg (st : St) (kv : String) : Option St :=
+  match kv.splitOn "=" with
+  | [k, v] =>
+    match k with
+    | "sst.splitOp" => do let o ← CmpOp.ofString? v; pure { st with c := { st.c with splitOp := o } }
+    | "sst.seekFallsThrough" => do let b ← boolOfString? v; pure { st with c := { st.c with seekFallsThrough := b } }
+    | "sst.tblSeekOp" => do let o ← CmpOp.ofString? v; pure { st with c := { st.c with tblSeekOp := o } }
+    | "sst.blkFwdOp" => do let o ← CmpOp.ofString? v; pure { st with c := { st.c with blkFwdOp := o } }
+    | "sst.blkRevOp" => do let o ← CmpOp.ofString? v; pure { st with c := { st.c with blkRevOp := o } }
+    | "sst.searchVsOp" => do let o ← CmpOp.ofString? v; pure { st with c := { st.c with searchVsOp := o } }
+    | "sst.bloomSameProjection" => do let b ← boolOfString? v; pure { st with c := { st.c with bloomSameProjection := b } }
+    | _ => none
+  | _ => none
+
+def keyStr (k : Bytes) : String :=
+  if k.length > 64 then s!"#{k.length}:{Bytes.toHex (k.drop (k.length - 16))}" else k.toHex
+def valStr (v : Bytes) : String :=
+  if v.length > 32 then s!"#{v.length}:{Bytes.toHex (v.take 4)}" else v.toHex
+def entStr (e : SEntry) : String := keyStr e.1 ++ "=" ++ valStr e.2
+def entsStr (l : List SEntry) : String := if l.isEmpty then "-" else ",".intercalate (l.map entStr)
+def optStr : Option Bytes → String
+  | none => "none"
+  | some v => valStr v
+
+/-- any hash will do for the model column (no false negatives for every hash: C35_bloom_no_fn) -/
+def modelHash (b : Bytes) : Nat := b.foldl (fun h x => (h * 31 + x + 7) % u32) b.length
+
+def parseEnt? (s : String) : Option SEntry :=
+  match s.splitOn ":" with
+  | [u, v, x] => do
+    let u ← bytesOf? u; let v ← natOf? v
+    let x ← (if x.startsWith "r" then (do let n ← natOf? (x.drop 1).toString; pure (List.replicate n 120)) else bytesOf? x)
+    pure (mkKey IdxCfg.good u v, x)
+  | _ => none
+
+def step (st : St) (toks : List String) : St × String :=
+  if !st.built && toks.head? != some "cfg" && toks.head? != some "build" then (st, "no-table\tno-table") else
+  match toks with
+  | "cfg" :: kvs =>
+    match kvs.foldlM setCfg st with
+    | some st' => (st', "ok")
+    | none => (st, "bad-cfg")
+  | ["build", bs, bloom, bpk, ents] =>
+    match natOf? bs, natOf? bloom, natOf? bpk, (ents.splitOn ",").mapM parseEnt? with
+    | some bs, some bloom, some bpk, some es =>
+      let k := min (max (bpk * 69 / 100) 1) 30
+      let t := buildTable st.c modelHash bs (bloom == 1) bpk k es
+      ({ st with t := t, ents := es, built := true }, s!"ok:{es.length}\tok:{es.length}")
+    | _, _, _, _ => (st, "bad-op")
+  | ["blocks"] =>
+    (st, ",".intercalate (st.t.blocks.map (fun b => keyStr (baseKey b))) ++ "\t*")
+  | ["reopen"] => (st, "ok\tok")
+  | ["get", u, v] =>
+    match bytesOf? u, natOf? v with
+    | some u, some v =>
+      let k := mkKey IdxCfg.good u v
+      let m := optStr (search st.c modelHash st.t k)
+      -- spec: first entry at or after the key; answered when it has the same user key
+      let r := match st.ents.dropWhile (fun e => klt e.1 k) with
+        | [] => none
+        | e :: _ => if sameKey k e.1 then some e.2 else none
+      (st, m ++ "\t" ++ optStr r)
+    | _, _ => (st, "bad-op")
+  | ["seek", dir, u, v, n] =>
+    match bytesOf? u, natOf? v, natOf? n with
+    | some u, some v, some n =>
+      let k := mkKey IdxCfg.good u v
+      let asc := dir == "asc"
+      let m := if asc then seekFwd st.c k st.t.blocks else seekRev st.c k st.t.blocks
+      let r := if asc then st.ents.dropWhile (fun e => klt e.1 k)
+               else (st.ents.takeWhile (fun e => !klt k e.1)).reverse
+      (st, entsStr (m.take n) ++ "\t" ++ entsStr (r.take n))
+    | _, _, _ => (st, "bad-op")
+  | ["scan", dir] =>
+    let asc := dir == "asc"
+    (st, entsStr (scan st.t asc) ++ "\t" ++ entsStr (if asc then st.ents else st.ents.reverse))
+  | _ => (st, "bad-op")
+
+def main : IO Unit := Driver.loop ({} : St) step
